@@ -872,6 +872,22 @@ pub fn c11_hands(rng: &mut Rng, thorough: bool) -> Vec<Vec<u32>> {
     out
 }
 
+/// deck indices that alias an in-range index when a part of the computation is done in a narrower integer or a quotient /
+/// remainder is truncated: k + m * 2^j, k + 13 * 2^j * m, k + 52 * 2^j * m, for k < 52 and a few beyond
+pub fn aliasing_indices() -> Vec<u64> {
+    let mut v = Vec::new();
+    for k in (0u64..56).chain([63, 64, 255, 256]) {
+        for j in [8u32, 16, 31, 32, 33, 48, 63] {
+            for m in [1u64, 2, 3] {
+                for base in [1u64, 13, 52, 4] {
+                    v.push(k.wrapping_add(base.wrapping_mul(m).wrapping_mul(1u64 << j)));
+                }
+            }
+        }
+    }
+    v
+}
+
 /// structured and seeded 64-bit sets: empty, full, singletons, rank groups, each overflow bit, boundaries
 pub fn bit_sets(rng: &mut Rng, seeded: usize) -> Vec<u64> {
     let all: u64 = (1u64 << 52) - 1;
@@ -883,6 +899,19 @@ pub fn bit_sets(rng: &mut Rng, seeded: usize) -> Vec<u64> {
     }
     for r in 0..13 {
         v.push((1u64 << r) | (1u64 << (13 + r)) | (1u64 << (26 + r)) | (1u64 << (39 + r)));
+    }
+    // every contiguous run of bits, alone and with one extra bit (lane-wise popcounts, nibble carries, suit lanes that
+    // run into the twelve non-card bits)
+    for lo in 0..64u32 {
+        for len in 1..=64 - lo {
+            let run = if len == 64 { u64::MAX } else { ((1u64 << len) - 1) << lo };
+            v.push(run);
+            if len >= 8 {
+                let extra = 1u64 << rng.below(64);
+                v.push(run | extra);
+                v.push(run & !extra);
+            }
+        }
     }
     for i in 52..64 {
         v.push((1u64 << i) | 0b1011);
@@ -1020,6 +1049,9 @@ pub fn c12_strings(rng: &mut Rng, thorough: bool) -> Vec<(String, String)> {
 /// keys for the product search: small keys, every table key and its neighbours, powers of two, seeded
 fn find_keys(rng: &mut Rng, seeded: usize) -> Vec<u64> {
     let mut keys: Vec<u64> = (0..4100).collect();
+    // the table keys and their neighbours (the hook re-exports the private table; a build without the hook — used only to
+    // search for a failing input when the guard is misused — goes without them)
+    #[cfg(contractbridge_ckc_rs_verif)]
     for p in ckc_rs::verif_hooks::PRODUCTS {
         keys.extend([p as u64 - 1, p as u64, p as u64 + 1]);
     }
@@ -1528,6 +1560,9 @@ pub fn cases(prop: &str, thorough: bool, seed: u64, c: &mut Cases) {
                 }
             }
             c.emit("deck/max", &format!("deck {}", u64::MAX));
+            for i in aliasing_indices() {
+                c.emit("deck/aliasing (k + m * base * 2^j)", &format!("deck {i}"));
+            }
             let n = if thorough { 200_000 } else { 20_000 };
             for _ in 0..n {
                 let i = if rng.below(2) == 0 { rng.below(120) } else { rng.next() };
@@ -1761,6 +1796,7 @@ fn sweep_c18(seed: u64, thorough: bool) -> Sweep {
         idx.extend([p.wrapping_sub(1), p, p.wrapping_add(1)]);
     }
     idx.push(usize::MAX);
+    idx.extend(aliasing_indices().into_iter().map(|i| i as usize));
     let mut rng = Rng::new(seed ^ 0x18);
     for _ in 0..(if thorough { 1_000_000 } else { 100_000 }) {
         idx.push(rng.next() as usize);
@@ -1898,6 +1934,13 @@ fn sweep_c14(seed: u64, thorough: bool) -> Sweep {
             s.fail("round trip word -> bit -> word", &w.to_string(), &w.to_string(), &<CKCNumber as PokerCard>::from_binary_card(b).to_string());
         }
     }
+    // structured sets: every contiguous run of bits (alone, plus and minus one bit), rank groups, boundaries
+    {
+        let mut rng = Rng::new(seed ^ 0xB175);
+        for x in bit_sets(&mut rng, 0) {
+            check(&mut s, x, "from_bc/structured-set");
+        }
+    }
     let n: u64 = if thorough { 1_000_000_000 } else { 20_000_000 };
     let bad: Vec<(u64, u32)> = par_ranges(n, parts, |lo, hi| {
         let mut rng = Rng::new(seed ^ lo.wrapping_mul(0x9E37));
@@ -1942,6 +1985,20 @@ fn sweep_c20() -> Sweep {
         if m & 4 != 0 { x = x.flag_as_quads(); }
         x
     };
+    // the same operations through a `&mut u32` receiver (what `for c in hand.iter_mut() { *c = c.flag_as_pair() }` does) and a `&u32` one
+    for &w in &deck {
+        for m in 0u32..8 {
+            let x = mark(m, w);
+            let mut y = x;
+            let via_mut = { let c: &mut u32 = &mut y; (c.flag_as_pair(), c.flag_as_trips(), c.flag_as_quads(), c.strip_multiples_flags(), c.get_card_rank(), c.get_card_suit(), c.get_rank_prime()) };
+            let via_ref = { let c: &u32 = &x; (c.flag_as_pair(), c.flag_as_trips(), c.flag_as_quads(), c.strip_multiples_flags(), c.get_card_rank(), c.get_card_suit(), c.get_rank_prime()) };
+            let direct = (x.flag_as_pair(), x.flag_as_trips(), x.flag_as_quads(), x.strip_multiples_flags(), x.get_card_rank(), x.get_card_suit(), x.get_rank_prime());
+            s.evaluations += 1;
+            if via_mut != direct || via_ref != direct {
+                s.fail("marking / stripping / reading through a &mut or & receiver differs from the same call on the value", &format!("{w} marks {m}"), &format!("{direct:?}"), &format!("&mut {via_mut:?} & {via_ref:?}"));
+            }
+        }
+    }
     // marks applied in every order to every card (an order-dependent assertion shows here), under catch_unwind
     for &w in &deck {
         for seq in [[0u8, 1, 2], [0, 2, 1], [1, 0, 2], [1, 2, 0], [2, 0, 1], [2, 1, 0]] {
@@ -2336,6 +2393,15 @@ fn sweep_c06() -> Sweep {
         if got != (want_cat.clone(), want_class.clone()) || r.value != hrv {
             s.fail("HandRank::from(value) does not describe the class of that strength ordinal", &v.to_string(), &format!("{want_cat} {want_class}"), &format!("{} {} value {}", got.0, got.1, r.value));
         }
+        // every way of spelling the conversion: path call (binds to an inherent `from` if one exists), the `From` trait itself,
+        // `Into`, and generic code
+        fn generic_from<T: From<u16>>(v: u16) -> T { T::from(v) }
+        let by_trait = <HandRank as From<u16>>::from(hrv);
+        let by_into: HandRank = hrv.into();
+        let by_generic: HandRank = generic_from(hrv);
+        if by_trait != r || by_into != r || by_generic != r {
+            s.fail("the conversion differs between HandRank::from, <HandRank as From<u16>>::from, .into() and generic T::from", &v.to_string(), &format!("{r:?}"), &format!("{by_trait:?} {by_into:?} {by_generic:?}"));
+        }
         if r.is_invalid() == valid || !r.is_a_valid_hand_rank() {
             s.fail("is_invalid / is_a_valid_hand_rank", &v.to_string(), &format!("is_invalid = {}, consistent", !valid), &format!("is_invalid = {}, consistent = {}", r.is_invalid(), r.is_a_valid_hand_rank()));
         }
@@ -2507,7 +2573,29 @@ fn sweep_c07(seed: u64, thorough: bool) -> Sweep {
         s.nontrivial += n;
         s.count("seeded pairs", n);
     }
-    s.rule = "pairs of converted 16-bit values: cmp, partial_cmp, the four operators and == against comparison of an explicit injective integer key (transitivity over triples follows); quick: all pairs of the class-boundary set plus seeded pairs, thorough: all 2^32 pairs; plus the enumeration orders along all adjacent values".into();
+    // the two enumerations, every pair, every way of comparing, against discriminant order (strongest first, Invalid last)
+    {
+        use ckc_rs::hand_rank::{HandRankClass, HandRankName};
+        macro_rules! enum_pairs {
+            ($ty:ty, $what:expr) => {{
+                let all: Vec<$ty> = <$ty>::iter().collect();
+                for (i, a) in all.iter().enumerate() {
+                    for (j, b) in all.iter().enumerate() {
+                        s.evaluations += 1;
+                        let want = i.cmp(&j);
+                        let got = (a.cmp(b), a.partial_cmp(b), a < b, a <= b, a > b, a >= b, a == b, Ord::max(*a, *b) == all[i.max(j)], Ord::min(*a, *b) == all[i.min(j)]);
+                        let exp = (want, Some(want), i < j, i <= j, i > j, i >= j, i == j, true, true);
+                        if got != exp || (*a as usize) != i {
+                            s.fail($what, &format!("{a:?} {b:?}"), &format!("{exp:?}"), &format!("{got:?} discriminant {}", *a as usize));
+                        }
+                    }
+                }
+            }};
+        }
+        enum_pairs!(HandRankName, "category enumeration: cmp / partial_cmp / operators / max / min are not declaration (strength) order");
+        enum_pairs!(HandRankClass, "class enumeration: cmp / partial_cmp / operators / max / min are not declaration (strength) order");
+    }
+    s.rule = "pairs of converted 16-bit values: cmp, partial_cmp, the four operators and == against comparison of an explicit injective integer key (transitivity over triples follows); quick: all pairs of the class-boundary set plus seeded pairs, thorough: all 2^32 pairs; plus the enumeration orders along all adjacent values; both enumerations, all 10^2 and 310^2 pairs, cmp / partial_cmp / operators / max / min against declaration order".into();
     s.sample(format!("from(0).cmp(from(7463)) = {:?}", ranks[0].cmp(&ranks[7463])));
     s.sample(format!("from(1).cmp(from(2)) = {:?}", ranks[1].cmp(&ranks[2])));
     s.sample(format!("from(7462).cmp(from(0)) = {:?}", ranks[7462].cmp(&ranks[0])));
@@ -2775,6 +2863,16 @@ fn sweep_sixseven(prop: &str, seed: u64, thorough: bool) -> Sweep {
     total
 }
 
+/// validated ranking through a `&mut` binding (a hand that was just edited in place), a `&&mut` one and a reborrow
+#[allow(clippy::needless_borrow)]
+fn via_mut<T: HandRanker>(mut f: T) -> [u16; 3] {
+    let m = &mut f;
+    let a = m.hand_rank_value_validated();
+    let b = (&m).hand_rank_validated().value;
+    let c = (&mut *m).hand_rank_value_validated();
+    [a, b, c]
+}
+
 /// C04: validators and validated ranking against "52-card words, pairwise distinct".
 fn sweep_c04(seed: u64, thorough: bool) -> Sweep {
     let mut s = Sweep::default();
@@ -2797,16 +2895,16 @@ fn sweep_c04(seed: u64, thorough: bool) -> Sweep {
         if h.len() >= 5 {
             #[allow(clippy::needless_borrow)]
             let vv = guarded(|| match hh {
-                H::T5(f) => (f.hand_rank_value_validated(), ckc_rs::evaluate::five_cards(f.to_arr()), (&&f).hand_rank_validated().value),
-                H::T6(f) => (f.hand_rank_value_validated(), (&&f).hand_rank_value_validated(), f.hand_rank_validated().value),
-                H::T7(f) => (f.hand_rank_value_validated(), (&&f).hand_rank_value_validated(), f.hand_rank_validated().value),
+                H::T5(f) => (f.hand_rank_value_validated(), ckc_rs::evaluate::five_cards(f.to_arr()), (&&f).hand_rank_validated().value, via_mut(f)),
+                H::T6(f) => (f.hand_rank_value_validated(), (&&f).hand_rank_value_validated(), f.hand_rank_validated().value, via_mut(f)),
+                H::T7(f) => (f.hand_rank_value_validated(), (&&f).hand_rank_value_validated(), f.hand_rank_validated().value, via_mut(f)),
                 _ => unreachable!(),
             });
             match vv {
                 None => s.fail("validated ranking panics", &join(&h), "returns", "panic"),
-                Some((a, b, c)) => {
-                    if a != b || a != c {
-                        s.fail("validated entry points disagree", &join(&h), &a.to_string(), &format!("{b} {c}"));
+                Some((a, b, c, d)) => {
+                    if a != b || a != c || d != [a; 3] {
+                        s.fail("validated entry points disagree (value, second entry point, hand_rank_validated, then through &mut / &&mut receivers)", &join(&h), &a.to_string(), &format!("{b} {c} {d:?}"));
                     }
                     if want_valid {
                         let plain = guarded(|| match hh {
@@ -3292,7 +3390,31 @@ fn sweep_c15(seed: u64, thorough: bool) -> Sweep {
             s.fail("set built from a long text is not the set of the cards its tokens name", &format!("{} tokens: {}...{}", spec_tokens(&t).len(), &t[..24.min(t.len())], &t[t.len().saturating_sub(12)..]), &want.to_string(), &format!("{got:?}"));
         }
     }
-    s.rule = "hands of sizes 2..7 over {52 cards, blank} with repeats, and hands with a word that is not a card (every marked card, one-bit neighbours, hybrids, constants) in every slot in turn: from_n against the OR of the layout bit of every real card; structured (empty, full, singletons, rank groups, overflow bits, boundaries) and seeded 64-bit sets: fold_in, has, number_of_cards, is_single_card, is_valid against bit-level semantics and the full peel sequence (to exhaustion + 2) step by step; non-trivial = non-empty".into();
+    // very many tokens: a count kept in a narrow integer, a cap on the number of tokens looked at
+    for count in [255usize, 256, 65_535, 65_536, 1 << 20, (1 << 22) + 1, 5_000_000] {
+        let mut t = "2c ".repeat(count);
+        t.push_str("AS KD");
+        s.evaluations += 1;
+        s.nontrivial += 1;
+        let want = bit_of(layout_word(0, 0)) | bit_of(layout_word(12, 3)) | bit_of(layout_word(11, 1));
+        let got = guarded(|| <BinaryCard as BC64>::from_index(&t));
+        if got != Some(want) {
+            s.fail("set built from a text with very many tokens is not the set of the cards its tokens name", &format!("\"2c \" x {count} followed by \"AS KD\""), &want.to_string(), &format!("{got:?}"));
+        }
+    }
+    // every Unicode scalar before, between and after card tokens: only white space separates
+    for cp in 0u32..0x11_0000 {
+        let Some(c) = char::from_u32(cp) else { continue };
+        for t in [format!("{c}AS"), format!("AS{c}KD"), format!("AS {c} KD"), format!("KD{c}")] {
+            s.evaluations += 1;
+            let want = spec_tokens(&t).iter().fold(0u64, |a, x| a | bit_of(spec_token(x)));
+            let got = guarded(|| <BinaryCard as BC64>::from_index(&t));
+            if got != Some(want) {
+                s.fail("set built from text: a character that is not white space separates tokens (or white space does not)", &format!("{t:?} (U+{cp:04X})"), &want.to_string(), &format!("{got:?}"));
+            }
+        }
+    }
+    s.rule = "hands of sizes 2..7 over {52 cards, blank} with repeats, and hands with a word that is not a card (every marked card, one-bit neighbours, hybrids, constants) in every slot in turn: from_n against the OR of the layout bit of every real card; structured (empty, full, singletons, rank groups, overflow bits, boundaries) and seeded 64-bit sets: fold_in, has, number_of_cards, is_single_card, is_valid against bit-level semantics and the full peel sequence (to exhaustion + 2) step by step; texts: seeded, long, up to 5,000,000 tokens, and every Unicode scalar before / between / after card tokens; non-trivial = non-empty".into();
     let mut x = 0b1011u64;
     s.sample(format!("peel x4 from 0b1011: {:?} leaving {}", [x.peel(), x.peel(), x.peel(), x.peel()], x));
     s
